@@ -92,7 +92,9 @@ pub fn sdd_canon(p: SddPtr, neg: bool) -> String {
                 .node_iter()
                 .map(|a| (sdd_canon(a.prime(), false), sdd_canon(a.sub(), n)))
                 .collect();
-            elems.sort_by(|a, b| a.0.cmp(&b.0));
+            // the order the model's printer uses: the printed prime with blanks as separators
+            // (`[1 (` sorts before `[11 (`, whereas `[11_(` would sort before `[1_(`)
+            elems.sort_by(|a, b| a.0.replace('_', " ").cmp(&b.0.replace('_', " ")));
             let body: Vec<String> = elems.iter().map(|(p, s)| format!("({}_{})", p, s)).collect();
             format!("[{}_{}]", p.vtree().value(), body.join("_"))
         }
@@ -158,6 +160,12 @@ pub fn sdd_line(rng: &mut Rng, maxvars: usize, maxops: usize) -> String {
     let vt = gen_vtree(rng, n);
     let compress = rng.chance(3, 4);
     let tbl = [0usize, 4, 8][rng.below(3) as usize];
+    // without compression diagrams (and the implementation's structural comparisons of element
+    // vectors) grow quickly: keep those programs short (operands only refer backwards)
+    let mut prog = prog;
+    if !compress && prog.ops.len() > 24 {
+        prog.ops.truncate(24);
+    }
     let head = format!(
         "sdd n={} vtree={} compress={} tbl={} ops={}",
         n,
